@@ -186,6 +186,11 @@ fn gen_case(seed: u64, index: u64, tier: Tier) -> Case {
 							v.truncate(1);
 						}
 					}
+					// (two targets within a frame of each other cannot be told apart by the jump oracle,
+					// which grants a seek one frame: keep them well apart)
+					if v.len() == 2 && (v[0].1 as i64 - v[1].1 as i64).abs() <= 4 {
+						v[1].1 += 9;
+					}
 					v
 				},
 				second_by: rng.chance(0.5),
@@ -524,6 +529,7 @@ pub fn run_case(case: &Case) -> CaseResult {
 			// jumps to the seek targets (after at most one ring of already decoded audio)
 			let mut expected_next: Option<usize> = Some(*start);
 			let mut pending: Vec<usize> = vec![];
+			let mut maybe_later: Vec<usize> = vec![];
 			let mut seek_iter = seeks.iter().collect::<Vec<_>>();
 			seek_iter.sort_by_key(|s| s.0);
 			let mut frames_since_seek = usize::MAX;
@@ -574,7 +580,21 @@ pub fn run_case(case: &Case) -> CaseResult {
 				}
 				if Some(abs) != expected_next {
 					// a jump: must be to a pending seek target (within one frame), within one ring of the seek
-					let landed = pending.iter().rposition(|t| readings(*t).iter().any(|r| (abs as i64 - *r as i64).abs() <= 1));
+					let matches_target = |t: &usize| readings(*t).iter().any(|r| (abs as i64 - *r as i64).abs() <= 1);
+					let landed = pending.iter().rposition(matches_target);
+					// two pending targets within a frame of each other: the landing fits both, and the
+					// later one may still be carried out (a second jump to the same place)
+					if landed.is_none() {
+						if let Some(i) = maybe_later.iter().position(matches_target) {
+							maybe_later.remove(i);
+							jumps += 1;
+							expected_next = Some(abs + 1);
+							if frames_since_seek != usize::MAX {
+								frames_since_seek += 1;
+							}
+							continue;
+						}
+					}
 					if landed.is_none() {
 						res.fail(Violation::new(
 							"streaming-equals-loading",
@@ -588,6 +608,13 @@ pub fn run_case(case: &Case) -> CaseResult {
 						return res;
 					}
 					// this seek and every earlier one (superseded: last write wins) are done
+					if let Some(first) = pending.iter().position(matches_target) {
+						for t in &pending[first + 1..=landed.unwrap()] {
+							if matches_target(t) {
+								maybe_later.push(*t);
+							}
+						}
+					}
 					pending.drain(..=landed.unwrap());
 					jumps += 1;
 				}
